@@ -22,6 +22,7 @@ func CorpusC02() []*Input {
 		{Steps: []Step{{Backs: seqBack(6, 1, "", false, "10.0.0.1", "10.0.0.1", "10.0.0.2")}, {Backs: seqBack(6, 1, "", false, "10.0.0.1", "10.0.0.1", "10.0.0.3")}}},
 	}
 	in = append(in, corpusWeights()...)
+	in = append(in, corpusStaticReorder()...)
 	in = append(in, corpusShards()...)
 	in = append(in, corpusGenerations()...)
 	in = append(in, corpusLinked()...)
@@ -61,6 +62,34 @@ func corpusGenerations() []*Input {
 			{Backs: weighted(1, 0, 1)},
 			{Hosts: []HostSpec{h2}},
 			{Backs: weighted(1, 1)},
+		}})
+	}
+	return out
+}
+
+// corpusStaticReorder (seeded/C02-nondynamic-reorder-no-reload): a backend with dynamic scaling
+// off is re-notified with its two endpoints in the other order and nothing else (the sequence
+// names follow the order: this must reload); then another backend is updated dynamically (the
+// files are rewritten); then the first one is switched to dynamic scaling with one endpoint
+// drained.
+func corpusStaticReorder() []*Input {
+	st := func(dyn bool, ws []int, ips ...string) BackSpec {
+		b := BackSpec{NS: "d", Name: "static", Port: "8080", Dyn: dyn, MinFree: 0, Block: 1, InitW: 1}
+		for i, ip := range ips {
+			b.Eps = append(b.Eps, EpSpec{IP: ip, Port: 80, Weight: ws[i]})
+		}
+		return b
+	}
+	other := func(ips ...string) BackSpec { return seqBack(2, 1, "", false, ips...)[0] }
+	var out []*Input
+	for _, naming := range []int{0, 1} {
+		a, b := "10.0.3.1", "10.0.3.2"
+		mk := func(x BackSpec) BackSpec { x.Naming = naming; return x }
+		out = append(out, &Input{Steps: []Step{
+			{Backs: []BackSpec{mk(st(false, []int{1, 1}, a, b)), other("10.0.0.1")}},
+			{Backs: []BackSpec{mk(st(false, []int{1, 1}, b, a))}},
+			{Backs: []BackSpec{other("10.0.0.1", "10.0.0.2")}},
+			{Backs: []BackSpec{mk(st(true, []int{1, 0}, b, a))}},
 		}})
 	}
 	return out
